@@ -17,7 +17,8 @@ PROP = {
                   "(persistent clients keyed by IP, CIDR, DHCP MAC, ClientID with ignore-log / ignore-stats flags), "
                   "generated ignore lists for the log and for statistics (plain, ||d^, *.d, |.^, any letter case), "
                   "anonymisation on/off (in a third of the cases switched to its final value at run time through PUT "
-                  "/control/querylog/config/update), and sends 4-14 queries (names derived from the rule domains, mixed "
+                  "/control/querylog/config/update; in a quarter followed by a partial update through the deprecated POST "
+                  "/control/querylog_config that must leave the unnamed settings in force), and sends 4-14 queries (names derived from the rule domains, mixed "
                   "case, the root, several clients, a quarter of the IPv4 clients seen through 4-in-6 addresses). It then compares, as multisets of (name, stored client address), what the "
                   "log API returns from memory, what it returns after the flush, the decoded lines of "
                   "querylog.json(.1), the stats API (totals, per-domain, per-client) and the raw bytes of stats.db "
